@@ -1026,6 +1026,23 @@ class ProtoGen:
         return files
 
 
+PB_SWEEP_P0 = 'syntax = "proto3";\npackage sweep.api;\nimport "p1.proto";\n\nmessage Request {\n  string self = 1;\n  int32 super = 2;\n  bool crate = 3;\n  string fn = 4;\n  repeated string loop = 5;\n  optional int32 match = 6;\n  optional sweep.lib.type.Leaf leaf = 7;\n  map<int32, sweep.lib.type.Outer> outers = 8;\n  map<string, sweep.lib.type.Mode> modes = 9;\n  map<uint64, bytes> blobs = 10;\n  sweep.lib.type.Outer.Inner.Deep deep = 11;\n  repeated sweep.lib.type.Outer.Inner.Kind kinds = 12;\n  oneof payload {\n    sweep.lib.type.Leaf one = 13;\n    string two = 14;\n    sint64 three = 15;\n    fixed32 four = 16;\n  }\n  oneof type {\n    bool flag = 17;\n    bytes data = 18;\n  }\n  message Nested {\n    Request parent = 1;\n    repeated Nested siblings = 2;\n    float weight = 3;\n  }\n  Nested nested = 19;\n  sfixed64 fooBar = 20;\n  sfixed32 IDs = 21;\n}\n\nmessage Response {\n  repeated Request echoes = 1;\n  Response next = 2;\n  enum Status {\n    STATUS_OK = 0;\n    STATUS_type = 1;\n  }\n  Status status = 3;\n  double score = 4;\n  float ratio = 5;\n}\n\nservice Gateway {\n  rpc Call (Request) returns (Response);\n  rpc type (stream Request) returns (Response);\n  rpc Watch (Request) returns (stream Response);\n  rpc Chat (stream Request) returns (stream sweep.lib.type.Outer);\n}\n'
+
+PB_SWEEP_P1 = 'syntax = "proto3";\npackage sweep.lib.type;\n\nenum Mode {\n  MODE_UNSPECIFIED = 0;\n  MODE_match = 1;\n  MODE_Self = 2;\n}\n\nmessage Leaf {\n  int64 v = 1;\n  string type = 2;\n  bytes raw = 3;\n}\n\nmessage Outer {\n  message Inner {\n    message Deep {\n      repeated Leaf leaves = 1;\n      map<string, Leaf> by_name = 2;\n    }\n    Deep deep = 1;\n    Mode mode = 2;\n    enum Kind {\n      KIND_A = 0;\n      KIND_fn = 1;\n    }\n    Kind kind = 3;\n  }\n  Inner inner = 1;\n  repeated Inner.Deep deeps = 2;\n  oneof choice {\n    string text = 3;\n    Leaf leaf = 4;\n    Inner.Kind kind = 5;\n    double ratio = 6;\n  }\n}\n'
+
+PB_SWEEP_PROTO2 = 'syntax = "proto2";\npackage sweep.legacy;\n\nmessage Old {\n  required int32 id = 1;\n  optional string name = 2;\n  repeated int64 values = 3 [packed = true];\n  optional Old child = 4;\n  enum Color { RED = 0; GREEN = 1; }\n  optional Color color = 5 [default = GREEN];\n  oneof alt { string s = 6; int32 i = 7; }\n  map<string, Old> index = 8;\n}\n'
+
+
+def proto_sweep_docs():
+    """directed protobuf documents: Rust keywords and path-segment keywords as field / message / enum value / rpc names, three-segment
+    packages with a keyword segment, an import used through every carrier (singular, optional, repeated, map value, oneof member,
+    nested type names three levels deep, rpc argument / result, streaming in both directions), two oneofs per message (one called
+    `type`), recursion through a nested message, maps with message / enum / bytes values, case-colliding field names; a proto2 file
+    with required / optional / packed / default / oneof / map / nested enum.  -> [(name, files, entry)]"""
+    return [("pb_sweep", {"p0.proto": PB_SWEEP_P0, "p1.proto": PB_SWEEP_P1}, "p0.proto"),
+            ("pb_proto2", {"p0.proto": PB_SWEEP_PROTO2}, "p0.proto")]
+
+
 def gen_proto_doc(rng, **kw):
     return ProtoGen(rng, **kw).gen()
 
@@ -1102,6 +1119,7 @@ def c17_touch_corpus(rng, n_files=5, items=100, share=0.4):
     -> (files, entries, [(file, [names])])"""
     r = rng
     files, touches = {}, []
+    graph = {}      # item name -> names collect visits from it, in field order (for the Collect.v correspondence)
     nss = ["tc.shared", "tc.shared", "tc.lib.deep", "tc.type", "tc.z9", "tc.lib"]
     for fi in range(n_files):
         fn = "t%d.thrift" % fi
@@ -1109,6 +1127,7 @@ def c17_touch_corpus(rng, n_files=5, items=100, share=0.4):
         out = ["namespace rs %s" % nss[fi % len(nss)], ""]
         for k, nm in enumerate(names):
             q = r.random()
+            graph[nm] = []
             if q < 0.15:
                 out.append("enum %s {\n  A%d = 0,\n  B%d = %d,\n}\n" % (nm, k, k, k + 1))
             elif q < 0.22:
@@ -1118,7 +1137,9 @@ def c17_touch_corpus(rng, n_files=5, items=100, share=0.4):
                 later = names[k + 1:k + 12]
                 for j in range(r.choice([0, 0, 1, 1, 2])):
                     if later:
-                        fields.append("  %d: optional %s ref_%d," % (3 + j, r.choice(later), j))
+                        tgt = r.choice(later)
+                        graph[nm].append(tgt)
+                        fields.append("  %d: optional %s ref_%d," % (3 + j, tgt, j))
                 out.append("struct %s {\n%s\n}\n" % (nm, "\n".join(fields)))
         files[fn] = "\n".join(out)
         picked = sorted(r.sample(range(items), int(items * share)))
@@ -1136,7 +1157,9 @@ def c17_touch_corpus(rng, n_files=5, items=100, share=0.4):
                             % (items - 1, n_files - 1, n_files - 1, items - 2))
     files["other.thrift"] = ("namespace rs tc.back\n" + 'include "t1.thrift"\ninclude "t2.thrift"\n' +
                              "\nservice Back {\n  t1.T1Item%d get(1: t2.T2Item%d q),\n}\n" % (items - 1, items - 3))
-    return files, ["main.thrift", "other.thrift"], touches
+    graph["Req"] = ["T0Item%d" % (items - 1), "T%dItem%d" % (n_files - 1, items - 2)]
+    graph["Front"] = ["Req"]
+    return files, ["main.thrift", "other.thrift"], touches, dict(roots=["Front"], graph=graph)
 
 
 def c17_proto_corpus(rng, n_top=5, n_nested=6):
